@@ -68,10 +68,31 @@ def batch_defeat() -> 'abs:Candidate':
     modifies()
 
 
-@contract('droop.rules.wigm.Rule.count', props=['C01', 'C09'], site_props=['C02', 'C04', 'C06', 'C07'], instances=['scaled', 'real'])
+@specfn
+def ledger_entry(E):
+    """vote ledger at the hand-over (Election.count has just set every tally to zero): the ghost total T (all tallies + the
+    non-transferable total) is the non-transferable total"""
+    return and_(ghost('T') == E.exhausted,
+                forall('ref:droop.candidate.Candidate', lambda c: implies(in_election(c), c.vote == E.V0)))
+
+
+@specfn
+def ledger_inv(E):
+    """W5/W6: no vote has been created (none lost under exact arithmetic), and the tally of every continuing candidate is the
+    value of the ballots standing with that candidate"""
+    N = V_of_int(E.electionProfile.nBallots)
+    return and_(ite(instance_is('real'), ghost('T') == N, ghost('T') <= N),
+                forall('ref:droop.candidate.Candidate',
+                       lambda c: implies(and_(in_election(c), or_(c.state == 'hopeful', and_(c.state == 'elected', truthy(c.pending)))),
+                                         c.vote == ghost_at('G', c))))
+
+
+@contract('droop.rules.wigm.Rule.count', props=['C01', 'C09'], site_props=['C02', 'C04', 'C06', 'C07'], instances=['scaled', 'real'],
+          ledger=True)
 def wigm_count(self: 'WigmRule'):
     E = self.E
     requires(count_entry(E))
+    requires(ledger_entry(E))
     ensures(ghost('nH') == 0, name='every candidate is decided: nobody is left hopeful')
     ensures(ghost('nP') == 0, name='no transfer is left pending')
     ensures(ghost('nW') == old(ghost('nW')), name='withdrawn candidates never change')
@@ -79,7 +100,7 @@ def wigm_count(self: 'WigmRule'):
     modifies_all(Candidate, 'state', 'pending', 'vote')
     modifies_all(Ballot, 'index', 'weight')
     modifies(E, 'quota', 'exhausted', 'round', 'surplus')
-    modifies_ghost('nH', 'nE', 'nD', 'nP', 'nlog', 'lasttag', 'lastmsg')
+    modifies_ghost('nH', 'nE', 'nD', 'nP', 'nlog', 'lasttag', 'lastmsg', 'T', 'G')
 
 
 @specfn
@@ -103,7 +124,18 @@ def wigm_main_loop(self):
     invariant(forall('ref:droop.candidate.Candidate',
                      lambda c: implies(and_(in_election(c), c.state == 'defeated'), c.vote == E.V0)),
               props=['C06'])      # an excluded candidate holds no votes
+    invariant(implies(ledger_on(), ledger_inv(E)), props=['C02', 'C06'])
     variant(2 * ghost('nH') + ghost('nP'))
+
+
+@loops('droop.rules.wigm.Rule.count', anchor='for#5')
+def wigm_batch_exclusion_loop(self):
+    "transferring the ballots of each candidate excluded in a batch: every step leaves the ledger as it found it"
+    invariant(implies(ledger_on(), ghost('T') == old(ghost('T'))), props=['C02'])
+    invariant(implies(ledger_on(), forall('ref:droop.candidate.Candidate',
+                                          lambda c: implies(in_election(c),
+                                                            c.vote - ghost_at('G', c) == old(c.vote - ghost_at('G', c))))),
+              props=['C02', 'C06'])
 
 
 # --------------------------------------------------------------------------------------------- Minneapolis
